@@ -167,8 +167,9 @@ def disps(w, seed):
     if w >= 32:
         ds += [0x8000, -0x8001, 0xffff, 0x10000, -0x10000, 0x7fffffff, -0x80000000, 0x12345678, -0x12345678]
     import random
-    r = random.Random(seed * 17 + w)
-    ds += [r.randrange(-(1 << (w - 1)), 1 << (w - 1)) for _ in range(2)]
+    for k in range(3):          # fixed pseudo-random extras (independent of VERIF_SEED)
+        r = random.Random(k * 17 + w)
+        ds += [r.randrange(-(1 << (w - 1)), 1 << (w - 1)) for _ in range(2)]
     return ds
 
 
